@@ -99,6 +99,7 @@ func checkTagTable(p *Program, r *Report) {
 	count := e.beU32(formInt(0))
 	tdo := formInt(132).Add(formInt(12).Mul(count)) // absolute tag data offset (table starts at 128: stream offset 0 = profile offset 128)
 	entOK, copyOK, zeroOK := true, true, false
+	freshOK, freshWhy := true, ""
 	why := ""
 	nEnt := 0
 	maxSeen := map[string]bool{}
@@ -143,11 +144,40 @@ func checkTagTable(p *Program, r *Report) {
 				entOK = false
 				why = fmt.Sprintf("entry %d is stored as key %s ↦ tagData[%s : +%s]; required key BE32@%d ↦ tagData[BE32@%d − (132+12·count) : + BE32@%d]", j, trunc(valKey(up.Args[0]), 60), trunc(valKey(sl.Lo), 80), trunc(valKey(sl.Len), 60), 132+12*j, 136+12*j, 140+12*j)
 			}
-			if cp != nil && sl != nil && sl.Base != nil && !(len(sl.Base.Args) == 1 && valKey(sl.Base.Args[0]) == valKey(cp.Recv)) && valKey(sl) != "" && sl.Base.Fn != "" {
-				entOK, why = false, "tag bytes are not sliced from the bulk tag-data buffer"
+			if cp != nil && sl != nil && sl.Base != nil && valKey(sl) != "" && sl.Base.Fn != "" {
+				fromBuffer := len(sl.Base.Args) == 1 && valKey(sl.Base.Args[0]) == valKey(cp.Recv) // buf.Bytes()
+				if rs, ok := cp.Recv.(*SliceVal); ok && cp.Kind == "readinto" && rs.Base != nil && rs.Base.Key == sl.Base.Key {
+					fromBuffer = true // the slice io.ReadAll returned
+				}
+				if !fromBuffer {
+					entOK, why = false, "tag bytes are not sliced from the bulk tag-data buffer"
+				}
 			}
 		}
 		if cp != nil {
+			// the storage the entries alias must belong to this profile alone: a
+			// fresh allocation of this call (or the slice io.ReadAll returns), never
+			// handed to anything that could reuse it (a pool, a package variable)
+			if cp.Kind == "copyn" {
+				bp, isPtr := cp.Recv.(*Ptr)
+				if !isPtr || bp.Cell == nil || !bp.Cell.Alloc {
+					freshOK, freshWhy = false, "the buffer the tag data is read into ("+trunc(valKey(cp.Recv), 80)+") is not allocated by this call: its bytes can be shared with, and overwritten by, another profile"
+				} else {
+					for _, ev := range o.St.events {
+						if ev.Kind != "call" && ev.Kind != "invoke" && ev.Kind != "store" && ev.Kind != "mapupdate" {
+							continue
+						}
+						if strings.HasSuffix(ev.Fn, "(*bytes.Buffer).Bytes") || strings.HasSuffix(ev.Fn, "(*bytes.Buffer).Len") {
+							continue
+						}
+						for _, a := range append([]Val{ev.Recv}, ev.Args...) {
+							if q, ok := a.(*Ptr); ok && q.Cell == bp.Cell && len(q.Path) == 0 {
+								freshOK, freshWhy = false, fmt.Sprintf("the tag-data buffer is handed to %s at %s while the tag table still aliases its bytes: it can be reused and overwritten", ev.Fn, p.Pos(ev.Pos))
+							}
+						}
+					}
+				}
+			}
 			start, _ := cp.Args[1].(*Form)
 			n, _ := cp.Args[2].(*Form)
 			if start == nil || !start.Equal(formInt(int64(4+12*k))) {
@@ -169,6 +199,7 @@ func checkTagTable(p *Program, r *Report) {
 		_ = u32
 	}
 	r.Check(entOK && nEnt > 0, rule, "entries", pos, fmt.Sprintf("%d table entries on all explored paths: signature, offset, size = three BE32 at 132+12j; bytes = tagData[offset − (132+12·count) : +size] under its own signature", nEnt), why)
+	r.Check(freshOK, rule, "storage", pos, "the bytes the tag table aliases live in storage allocated by this call and handed to nothing else (each profile owns its tag data)", freshWhy)
 	r.Check(copyOK, rule, "bulk read", pos, "tag data is read from right after the table; its length is (offset+size of the furthest entry) − (132 + 12·count)", why)
 	both := maxSeen["0/2"] && maxSeen["1/2"]
 	r.Check(both, rule, "furthest entry is any entry", pos, "with two entries, either one can determine the end of tag data (it is the maximum, not the last or the first)", fmt.Sprintf("with two table entries only %v determine the end of the tag data: tag data laid out in a different order than the table is truncated", keysOf(maxSeen)))
